@@ -263,3 +263,38 @@ theorem wtLoop_state (pid : Nat) (det : Bool) (dl delay : Nat) (rs : List Resp) 
     cases r <;> simp_all
 
 end Life
+
+namespace Life
+
+/-- `wait_timeout` answers "still running" only right after a status check that said so and a clock reading at or
+    past the deadline: never after a nap that was not followed by another check -/
+theorem wtLoop_none_ends_with_check (pid : Nat) (det : Bool) (dl delay : Nat) (rs : List Resp) :
+    (wtLoop pid det dl delay rs).ret = .none →
+      ∃ pre po w now, (wtLoop pid det dl delay rs).log = pre ++ [(.waitpid pid true, .wp po w), (.clock, .time now)] ∧
+        po ≠ pid ∧ dl ≤ now := by
+  induction delay, rs using wtLoop.induct pid dl with
+  | case1 => unfold wtLoop; simp
+  | case2 delay rs => unfold wtLoop; simp
+  | case3 delay e rs he => unfold wtLoop; simp [he]
+  | case4 delay w rs => unfold wtLoop; simp
+  | case5 delay po w hp => unfold wtLoop; simp [hp]
+  | case6 delay po w hp now rs2 hd' =>
+    unfold wtLoop
+    simp only [hp, hd', if_false, if_true]
+    intro _
+    exact ⟨[], po, w, now, rfl, hp, hd'⟩
+  | case7 delay po w hp now hd' => unfold wtLoop; simp [hp, hd']
+  | case8 delay po w hp now hd' r3 rs3 ih =>
+    unfold wtLoop
+    simp only [hp, hd', if_false, Out.pre]
+    intro h
+    obtain ⟨pre, po', w', now', hl, hne, hle⟩ := ih h
+    exact ⟨_ ++ pre, po', w', now', by rw [hl, List.append_assoc], hne, hle⟩
+  | case9 delay po w hp r2 rs2 hr =>
+    unfold wtLoop
+    cases r2 <;> simp_all
+  | case10 delay r rs h1 h2 =>
+    unfold wtLoop
+    cases r <;> simp_all
+
+end Life
